@@ -12,15 +12,17 @@
  * PLAIN harnesses (see C06.url_done).  url class calls = ownership models of the url contracts proved in
  * C05.url_dup / C06.url_del: dup returns a new block, del releases it.
  *
- * init, new, init_from_urls, new_from_urls, dup, recv: loop-free, tier P.
- * close, done, del: the EINTR retry of spif_socket_close is a do-while; tools/annotate.py cannot place a loop
- *   contract on a do-while for cbmc 6.11, so these three are tier B with the loop unwound 3 times, unwinding
- *   assertion on.  The bound is not a restriction of the claim: under the kernel model the second close() of
- *   a released descriptor answers EBADF, so a third iteration is impossible and the assertion proves it.
+ * All tier P: init, new, init_from_urls, new_from_urls, dup, recv are loop-free; close, done, del run through the
+ * EINTR retry of spif_socket_close, a do-while closed by a loop contract (annot/socket.c.net.ann; applied by
+ * `prepass: --apply-loop-contracts`, plain harness otherwise): the descriptor is released by the first close(),
+ * a second iteration can only see EBADF, termination measure 2/1/0.
+ * Native replay (native: self): the same harness and the same ghost kernel compiled natively against the real
+ * socket.c, inputs and the schedule of kernel answers (decision tape) taken from the verifier's witness.
  */
 /*@unit
 name: init
-define: NET_KERNEL, U_INIT
+define: NET_KERNEL, NET_TAPE, U_INIT
+native: self
 src: socket.c
 backend: sat
 flags: --memory-leak-check
@@ -28,7 +30,8 @@ funcs: spif_socket_init, spif_socket_new
 */
 /*@unit
 name: init_from_urls
-define: NET_KERNEL, U_FROM_URLS
+define: NET_KERNEL, NET_TAPE, U_FROM_URLS
+native: self
 src: socket.c
 backend: sat
 flags: --memory-leak-check
@@ -36,7 +39,8 @@ funcs: spif_socket_init_from_urls, spif_socket_new_from_urls
 */
 /*@unit
 name: dup
-define: NET_KERNEL, U_DUP
+define: NET_KERNEL, NET_TAPE, U_DUP
+native: self
 src: socket.c
 backend: sat
 flags: --memory-leak-check
@@ -44,29 +48,28 @@ funcs: spif_socket_dup, spif_socket_new, spif_socket_init
 */
 /*@unit
 name: recv
-define: NET_KERNEL, U_RECV
+define: NET_KERNEL, NET_TAPE, U_RECV
+native: self
 src: socket.c
 backend: sat
 funcs: spif_socket_recv
 */
 /*@unit
 name: close
-define: NET_KERNEL, U_CLOSE
+define: NET_KERNEL, NET_TAPE, U_CLOSE
+native: self
 src: socket.c
-tier: B
-bound: EINTR retry loop of spif_socket_close unwound 3 (a third iteration is impossible under the kernel model: unwinding assertion proved)
-unwind: 3
+prepass: --dfcc harness --apply-loop-contracts --no-malloc-may-fail
 backend: sat
 checks_off: --conversion-check
 funcs: spif_socket_close
 */
 /*@unit
 name: done
-define: NET_KERNEL, U_DONE
+define: NET_KERNEL, NET_TAPE, U_DONE
+native: self
 src: socket.c
-tier: B
-bound: EINTR retry loop of spif_socket_close unwound 3 (a third iteration is impossible under the kernel model: unwinding assertion proved)
-unwind: 3
+prepass: --dfcc harness --apply-loop-contracts --no-malloc-may-fail
 backend: sat
 checks_off: --conversion-check
 flags: --memory-leak-check
@@ -74,11 +77,10 @@ funcs: spif_socket_done, spif_socket_close
 */
 /*@unit
 name: del
-define: NET_KERNEL, U_DEL
+define: NET_KERNEL, NET_TAPE, U_DEL
+native: self
 src: socket.c
-tier: B
-bound: EINTR retry loop of spif_socket_close unwound 3 (a third iteration is impossible under the kernel model: unwinding assertion proved)
-unwind: 3
+prepass: --dfcc harness --apply-loop-contracts --no-malloc-may-fail
 backend: sat
 checks_off: --conversion-check
 flags: --memory-leak-check
@@ -89,6 +91,12 @@ funcs: spif_socket_del, spif_socket_done, spif_socket_close
 #include "socket.h"
 
 /* ---- ownership models of the url class (contracts: C05.url_dup, C06.url_del) and of the fd reader ---- */
+/* (native replay: the models get private names so that the linked url.c / str.c / obj.c keep theirs) */
+#ifdef VERIF_NATIVE
+# define spif_url_dup vg_m_url_dup
+# define spif_url_del vg_m_url_del
+# define spif_str_new_from_fd vg_m_str_new_from_fd
+#endif
 unsigned vg_url_dups, vg_url_dels;
 spif_url_t spif_url_dup(spif_url_t self)
 {
@@ -103,40 +111,48 @@ spif_bool_t spif_url_del(spif_url_t self)
     free(self);
     return TRUE;
 }
+#ifndef VERIF_NATIVE
 /* obj.c:386, written out */
 spif_bool_t spif_obj_set_class(spif_obj_t self, spif_class_t cls) { self->cls = cls; return TRUE; }
+#endif
 int w_recv_fd; unsigned vg_recv_calls; spif_str_t w_recv_result;
 spif_str_t spif_str_new_from_fd(int fd) { vg_recv_calls++; w_recv_fd = fd; return w_recv_result; }
 
-#include "rawsrc/socket.c"      /* un-annotated copy: no loop contracts are used here */
+#ifdef VERIF_NATIVE
+# include "rawsrc/socket.c"   /* native replay: the untouched copy */
+#else
+# include "src/socket.c"      /* annotated copy: the loop contract of spif_socket_close is applied by `prepass:` */
+#endif
 
 /* any ghost descriptor table; any socket object satisfying SOCK_INV */
-static void any_table(void)
-{   /* (written out: no loop of the harness may need the unwinding bound of the B units) */
-    vg_fd_open[0] = nondet_bool(); vg_fd_open[1] = nondet_bool(); vg_fd_open[2] = nondet_bool(); vg_fd_open[3] = nondet_bool();
-    vg_fd_open[4] = nondet_bool(); vg_fd_open[5] = nondet_bool(); vg_fd_open[6] = nondet_bool(); vg_fd_open[7] = nondet_bool();
-}
-static spif_socket_t any_socket(void)
+/* inputs are taken in harness() through VND (native replay reads them from the witness); written out, no loops */
+#define ANY_TABLE() do { vg_fd_open[0] = VND(bool, open0); vg_fd_open[1] = VND(bool, open1); vg_fd_open[2] = VND(bool, open2); vg_fd_open[3] = VND(bool, open3); \
+    vg_fd_open[4] = VND(bool, open4); vg_fd_open[5] = VND(bool, open5); vg_fd_open[6] = VND(bool, open6); vg_fd_open[7] = VND(bool, open7); } while (0)
+static spif_socket_t mk_socket(int fd, int fam, int type, int proto, unsigned flags, unsigned len, _Bool has_addr, _Bool has_l, _Bool has_r)
 {
     spif_socket_t s = malloc(sizeof(spif_const_socket_t));
     SPIF_CLASS_VAR(socket) = &s_class;
     s->parent.cls = SPIF_CLASS_VAR(socket);
-    s->fd = nondet_int(); s->fam = nondet_int(); s->type = nondet_int(); s->proto = nondet_int();
-    s->flags = nondet_uint(); s->len = nondet_uint();
+    s->fd = fd; s->fam = fam; s->type = type; s->proto = proto; s->flags = flags; s->len = len;
     __CPROVER_assume(SOCK_FD_OK(s) && s->fd >= -1 && s->len <= sizeof(struct sockaddr_un));
-    s->addr = nondet_bool() ? NULL : malloc(s->len);
-    s->local_url = nondet_bool() ? NULL : malloc(sizeof(spif_const_url_t));
-    s->remote_url = nondet_bool() ? NULL : malloc(sizeof(spif_const_url_t));
+    s->addr = has_addr ? malloc(s->len) : NULL;
+    if (s->addr) memset(s->addr, 0, s->len);
+    s->local_url = has_l ? malloc(sizeof(spif_const_url_t)) : NULL;
+    s->remote_url = has_r ? malloc(sizeof(spif_const_url_t)) : NULL;
     return s;
 }
+#define ANY_SOCKET() mk_socket(VND(int, s_fd), VND(int, s_fam), VND(int, s_type), VND(int, s_proto), VND(uint, s_flags), VND(uint, s_len), \
+                               VND(bool, s_has_addr), VND(bool, s_has_lurl), VND(bool, s_has_rurl))
 static void drop_socket_parts(spif_socket_t s) { free(s->addr); free(s->local_url); free(s->remote_url); }
 #define SLOT_KEPT(before) (vg_k >= VG_NFD || vg_fd_open[vg_k] == (before))
 
 void harness(void)
 {
     _Bool slot_before;
-    libast_debug_level = nondet_uint();          /* every run-time debug level (globals start at 0 in a plain harness) */
-    any_table();
+    libast_debug_level = VND(uint, debug_level);          /* every run-time debug level (globals start at 0 in a plain harness) */
+    ANY_TABLE();
+    VG_TAPE_FILL();
+    vg_k = VND(size_t, k);
     __CPROVER_assume(vg_k < VG_NFD);
     slot_before = vg_fd_open[vg_k];
 #if defined(U_INIT)
@@ -155,8 +171,8 @@ void harness(void)
     }
 #elif defined(U_FROM_URLS)
     {
-        spif_url_t su = nondet_bool() ? NULL : malloc(sizeof(spif_const_url_t));
-        spif_url_t du = nondet_bool() ? NULL : malloc(sizeof(spif_const_url_t));
+        spif_url_t su = VND(bool, has_su) ? malloc(sizeof(spif_const_url_t)) : NULL;
+        spif_url_t du = VND(bool, has_du) ? malloc(sizeof(spif_const_url_t)) : NULL;
         spif_socket_t s;
         vg_url_dups = 0;
         s = spif_socket_new_from_urls(su, du);
@@ -171,7 +187,7 @@ void harness(void)
     }
 #elif defined(U_DUP)
     {
-        spif_socket_t s = any_socket(), t;
+        spif_socket_t s = ANY_SOCKET(), t;
         int fd0 = s->fd;
         t = spif_socket_dup(s);
         __CPROVER_assert(t != NULL && t != s, "dup: a distinct object");
@@ -190,10 +206,10 @@ void harness(void)
     }
 #elif defined(U_RECV)
     {
-        spif_socket_t s = any_socket();
+        spif_socket_t s = ANY_SOCKET();
         spif_const_socket_t before = *s;
         spif_str_t r;
-        vg_recv_calls = 0; w_recv_result = nondet_ptr();
+        vg_recv_calls = 0; w_recv_result = (spif_str_t) &w_recv_fd;          /* some pointer value: only its identity matters */
         r = spif_socket_recv(s);
         __CPROVER_assert(vg_recv_calls == 1 && w_recv_fd == before.fd && r == w_recv_result,
                          "recv: one spif_str_new_from_fd on the socket's descriptor, its result handed on");
@@ -203,7 +219,7 @@ void harness(void)
     }
 #elif defined(U_CLOSE)
     {
-        spif_socket_t s = any_socket();
+        spif_socket_t s = ANY_SOCKET();
         int fd0 = s->fd;
         spif_bool_t r;
         __CPROVER_assume(fd0 >= 0);
@@ -216,7 +232,7 @@ void harness(void)
     }
 #elif defined(U_DONE) || defined(U_DEL)
     {
-        spif_socket_t s = any_socket();
+        spif_socket_t s = ANY_SOCKET();
         int fd0 = s->fd;
         unsigned urls = (s->local_url != NULL) + (s->remote_url != NULL);
         spif_bool_t r;
